@@ -1023,6 +1023,15 @@ def _x_from_arrays(draw, og):
                    "retain": draw(st.booleans())}}
 
 
+@extra("construct-allocation")
+def _x_allocation(draw, og):
+    """an explicit allocation= (any value >= the number of terms), alone or followed by a split that forwards it"""
+    a = og.array(draw, min_ndim=1, max_ndim=2)
+    return {"args": [P(a)], "kw": {"extra_slots": draw(st.sampled_from(["n+1", "n+1", "2n-1", "n", "2n", "3n", "n+2"])),
+                                   "how": draw(st.sampled_from(["polynomial", "from_attributes", "aspolynomial"])),
+                                   "then": draw(st.sampled_from([None, None, "hsplit", "vsplit", "add"]))}}
+
+
 @extra("construct-nested-list")
 def _x_nested(draw, og):
     a = og.array(draw, min_ndim=1, max_ndim=2)
@@ -1168,6 +1177,22 @@ def invoke_extra(name, args, kw):
             return out
         ctor = numpoly.polynomial_from_attributes if kw["how"] == "polynomial_from_attributes" else numpoly.ndpoly.from_attributes
         return ctor(E, C, retain_coefficients=kw["retain"], retain_names=kw["retain"])
+    if name == "construct-allocation":
+        n = len(p.keys)
+        alloc = {"n+1": n + 1, "2n-1": max(n, 2 * n - 1), "n": n, "2n": 2 * n, "3n": 3 * n, "n+2": n + 2}[kw["extra_slots"]]
+        if kw["how"] == "polynomial":
+            out = numpoly.polynomial(p, allocation=alloc)
+        elif kw["how"] == "aspolynomial":
+            out = numpoly.polynomial(p.todict(), names=p.names, allocation=alloc)
+        else:
+            out = numpoly.polynomial_from_attributes(p.exponents, p.coefficients, p.names, allocation=alloc)
+        if kw["then"] == "hsplit":
+            return numpoly.hsplit(out, [1])
+        if kw["then"] == "vsplit" and out.ndim >= 2:
+            return numpoly.vsplit(out, [1])
+        if kw["then"] == "add":
+            return out + out
+        return out
     if name == "construct-nested-list":
         items = [x for x in p] if kw["depth"] == 1 or p.ndim < 2 else [[y for y in x] for x in p]
         return numpoly.polynomial(items)
